@@ -397,6 +397,111 @@ fn run_activity(image: &str, case: u64, cap: &Cap, ctx: &mut Ctx) {
   }
 }
 
+/// 16-bit stores whose two bytes land on the serial registers: `LD (a16),SP` writes the low
+/// byte at a16 and then the high byte at a16+1 (the SM83's order), so with a16 = FF01 the data
+/// register receives low(SP) before the control register receives high(SP); a16 = FF00 puts
+/// high(SP) into SB only, a16 = FF02 puts low(SP) into SC only.  PUSH with SP = FF03 stores
+/// the pair's high byte to SC and its low byte to SB; there SB already holds the low byte, so
+/// the order of the two stores inside the instruction does not matter to the expectation.
+const WORD_FORMS: [&str; 4] = ["LD (FF01),SP", "LD (FF00),SP", "LD (FF02),SP", "PUSH BC at SP=FF03"];
+const WORD_LO: [u8; 5] = [0x00, 0x41, 0x58, 0x80, 0xFF];
+const WORD_HI: [u8; 6] = [0x00, 0x01, 0x7F, 0x80, 0x81, 0xFF];
+
+fn run_word(image: &str, case: u64, cap: &Cap, ctx: &mut Ctx) {
+  let form = case as usize;
+  const PREV: u8 = 0x50;
+  let mut code: Vec<u8> = vec![0xF3];
+  let mut want: Vec<u8> = Vec::new();
+  let mut n = 0u64;
+  for lo in WORD_LO {
+    for hi in WORD_HI {
+      n += 1;
+      match form {
+        0 => {
+          code.extend_from_slice(&[0x3E, PREV, 0xE0, 0x01, 0x31, lo, hi, 0x08, 0x01, 0xFF]);
+          if hi & 0x80 != 0 {
+            want.push(lo);
+          }
+          code.extend_from_slice(&[0x3E, 0x81, 0xE0, 0x02]);
+          want.push(lo);
+        },
+        1 => {
+          code.extend_from_slice(&[0x3E, PREV, 0xE0, 0x01, 0x31, lo, hi, 0x08, 0x00, 0xFF]);
+          code.extend_from_slice(&[0x3E, 0x81, 0xE0, 0x02]);
+          want.push(hi);
+        },
+        2 => {
+          code.extend_from_slice(&[0x3E, PREV, 0xE0, 0x01, 0x31, lo, hi, 0x08, 0x02, 0xFF]);
+          if lo & 0x80 != 0 {
+            want.push(PREV);
+          }
+          code.extend_from_slice(&[0x3E, 0x81, 0xE0, 0x02]);
+          want.push(PREV);
+        },
+        _ => {
+          code.extend_from_slice(&[0x3E, lo, 0xE0, 0x01, 0x31, 0x03, 0xFF, 0x01, lo, hi, 0xC5]);
+          if hi & 0x80 != 0 {
+            want.push(lo);
+          }
+          code.extend_from_slice(&[0x3E, 0x81, 0xE0, 0x02]);
+          want.push(lo);
+        },
+      }
+      code.extend_from_slice(&[0x31, 0xF0, 0xDF]);
+      // every other case ends its block here, so both one-block and split placements occur
+      if n % 2 == 0 {
+        let next = 0x0150 + code.len() + 3;
+        code.extend_from_slice(&[0xC3, (next & 0xff) as u8, (next >> 8) as u8]);
+      }
+    }
+  }
+  code.extend_from_slice(&gen::EPILOGUE);
+  assert!(0x150 + code.len() < 0x4000);
+  let mut core = progrun::fresh_core(image).expect("image loads");
+  progrun::patch_program(&mut core, gen::PROG_ORG, &code);
+  capture_reset(cap);
+  let mut steps = 0u64;
+  while core.run_state == crate::emulator::RunState::Run && steps < 16 * n + 64 {
+    progrun::step(&mut core);
+    steps += 1;
+  }
+  let got = capture_read(cap);
+  ctx.count(0, n);
+  ctx.count(1, want.len() as u64);
+  ctx.class(0x1000 + case);
+  if core.run_state == crate::emulator::RunState::Run {
+    ctx.violation(&format!("C18 build={} word-store form={} kind=program-did-not-finish", progrun::this_build(), WORD_FORMS[form].replace(' ', "")), || J::obj().set("case", J::obj().set("store_form", J::s(WORD_FORMS[form]))));
+  }
+  if got != want {
+    let mut pos = 0usize;
+    while pos < got.len() && pos < want.len() && got[pos] == want[pos] {
+      pos += 1;
+    }
+    let kind = if got.len() < want.len() { "missing-bytes" } else if got.len() > want.len() { "extra-bytes" } else { "wrong-bytes" };
+    ctx.violation(&format!("C18 build={} word-store form={} kind={}", progrun::this_build(), WORD_FORMS[form].replace(' ', ""), kind), || {
+      J::obj()
+        .set("case", J::obj().set("store_form", J::s(WORD_FORMS[form])).set("programs", J::s("for low byte in {00,41,58,80,FF} x high byte in {00,01,7F,80,81,FF}: SB<-50 (PUSH form: SB<-low), the 16-bit store, SC<-81; reference: the store's bytes reach the registers low address first")))
+        .set("expected_len", J::u(want.len() as u64))
+        .set("observed_len", J::u(got.len() as u64))
+        .set("first_difference_at", J::u(pos as u64))
+        .set("expected_from_there", J::s(world::hex(&want[pos.min(want.len())..(pos + 16).min(want.len())])))
+        .set("observed_from_there", J::s(world::hex(&got[pos.min(got.len())..(pos + 16).min(got.len())])))
+    });
+  }
+}
+
+pub fn run_word_pool(image: &str, workers: usize) -> PoolResult {
+  let opts = PoolOpts { workers, chunk: 1, bitmap_bits: 1 << 12, samples_per_child: 0, quiet_stdout: false, ..PoolOpts::default() };
+  let img = image.to_string();
+  run_pool(
+    WORD_FORMS.len() as u64,
+    &opts,
+    |slot| capture_begin(slot),
+    |cap, case, ctx| run_word(&img, case, cap, ctx),
+    |case, how| (format!("C18 build={} word-store crash={}", progrun::this_build(), how), J::obj().set("case", J::obj().set("word_case", J::u(case)))),
+  )
+}
+
 pub fn run_activity_pool(image: &str, workers: usize) -> PoolResult {
   let opts = PoolOpts { workers, chunk: 1, bitmap_bits: 1 << 12, samples_per_child: 0, quiet_stdout: false, ..PoolOpts::default() };
   let img = image.to_string();
@@ -439,6 +544,7 @@ pub fn worker(args: &[String]) -> i32 {
     r.merge(r2);
     r.merge(run_burst_pool(&args[2], 3));
     r.merge(run_activity_pool(&args[2], 3));
+    r.merge(run_word_pool(&args[2], 3));
     // keep our own stdout clean for the parent
     if std::fs::write(&args[3], meta_of(&r).to_string()).is_err() {
       return 2;
@@ -509,9 +615,10 @@ pub fn run(tier: &str) -> i32 {
   r.merge(run_exhaustion_pool(&image));
   r.merge(run_burst_pool(&image, 6));
   r.merge(run_activity_pool(&image, 6));
+  r.merge(run_word_pool(&image, 4));
   let progs = r.counters[0];
   let bytes = r.counters[1];
-  rep.add_stage("nojit-programs", &format!("every sequence of length <= {} over 10 SB/SC writes x 6 store forms ({} programs) + bursts of 1..300 transfers in one block + the cache-exhaustion program + every sequence of length <= 2 under 5 kinds of other device activity (OAM DMA in flight, display on, timer running, all three, IE/IF all set), non-jit build, fd 1 captured", depth, total_programs(depth)), r);
+  rep.add_stage("nojit-programs", &format!("every sequence of length <= {} over 10 SB/SC writes x 6 store forms ({} programs) + bursts of 1..300 transfers in one block + the cache-exhaustion program + every sequence of length <= 2 under 5 kinds of other device activity (OAM DMA in flight, display on, timer running, all three, IE/IF all set) + 4 forms of 16-bit store that land on the serial registers (LD (FF00|FF01|FF02),SP, PUSH at SP=FF03) x 30 byte pairs, non-jit build, fd 1 captured", depth, total_programs(depth)), r);
   let mut jit_progs = 0;
   match jit_child.unwrap().wait_with_output() {
     Ok(o) if o.status.success() => match progrun::parse_json_file(&jit_out) {
